@@ -326,4 +326,20 @@ example : (setstate1 exParams (getstate1 exParams exObj).1).map (·.1.vals)
 theorem legacy_int_counterexample :
     setstate1 exParams (getstate1 exParams exObj).1.legacy = none := by decide
 
+/-- Recorded finding KF-C11-7 (faithfully modelled, not repaired): a derivative that is masked
+    at an element where its object is NOT masked loses that mask when the object has a partial
+    array mask — it comes back with the object's mask.  Object mask `[T,F,F,F]`, derivative
+    mask `[T,T,F,F]`: element 1 of the derivative comes back unmasked. -/
+def exParent : Obj :=
+  { exObj with shape := [4], dtype := .float, vals := .array [4] [[10], [11], [12], [13]],
+               mask := .array [true, false, false, false] }
+def exDeriv : Obj :=
+  { exParent with vals := .array [4] [[20], [21], [22], [23]], mask := .array [true, true, false, false] }
+
+theorem deriv_mask_counterexample :
+    (setstate exParams (getstate exParams ⟨exParent, [("t", exDeriv)]⟩).1).map
+        (fun r => r.derivs.map fun kd => kd.2.maskBits)
+      = some [[true, false, false, false]] ∧
+    exDeriv.maskBits = [true, true, false, false] := by decide
+
 end PMV.Pickle
